@@ -3,7 +3,7 @@ import z3
 from .common import *  # noqa
 from .shared import *  # noqa
 from vc.reflect import reflect_bool_method
-from vc.speclemmas import STREAM, PUBL
+from vc.speclemmas import STREAM, PUBL, MAPL
 from contracts.pattern_family import c12_contracts
 from contracts.interp_sim import SIFILE
 from contracts.publish import (PFILE, IFILE, OFILE, phase_unit, full_unit, pattern_unit, forward_unit, symbol_table_unit, symbol_refusal_unit, table_kept_unit, publish_bounded)
@@ -23,6 +23,7 @@ def units_for(repo, cs, pid):
     for c in PAT_ARMS:
         us.append(Unit(f'{pid}/py/Interpreter.pattern/{c}', pattern_unit(repo, cs, c, False), info={'split_depth': 1}))
     us.append(Unit(f'{pid}/py/MemoizingInterpreter.pattern', pattern_unit(repo, cs, 'Implies', True), info={'split_depth': 1}))
+    us.append(Unit(f'{pid}/py/Interpreter.pattern/Instantiate', pattern_unit(repo, cs, 'Instantiate', False), info={'split_depth': 1}))
     for k in (0, 1, 2, 3):
         for w, tag in ((False, ''), ('base', '[through MemoizingInterpreter]')):
             if w and k > (2 if TIER[0] == 'thorough' else 1):
@@ -62,6 +63,7 @@ def build(repo, tier):
     lib = py_lib(JE)
     lib.update(STREAM)
     lib.update(PUBL)
+    lib.update({k: v for k, v in MAPL.items() if v is not None})
     units = lemma_units(lib) + units_for(repo, cs, 'C03')
     du, dt, dfn = merge(eq_units(repo, cs, 'C03'), simplify_units(repo, cs, 'C03'))
     spec = PropSpec('C03', units + du, lib, dt, trusted=TRUSTED_ENGINE,
